@@ -283,7 +283,8 @@ NcsStep(t) ==
                \/ /\ m.term # U /\ UNCHANGED mgr      \* NB: the semaphore is not released on this path
                   /\ SetT(t, [th EXCEPT !.opc = th.cont.fail, !.res = m.term])
        [] th.opc = "ncs.set" ->      \* m.sbuf.Set(stream)
-            /\ mgr' = IF m.sbufClosed THEN mgr ELSE [mgr EXCEPT ![e].sbuf = th.sid]
+            /\ mgr' = [mgr EXCEPT ![e].sbuf = IF m.sbufClosed THEN m.sbuf ELSE th.sid,
+                                   ![e].pdone = IF e = "srv" THEN 1 ELSE m.pdone]      \* NewServerStream: m.pdone.Send() after newStream
             /\ hmeta' = IF e = "srv" THEN [hmeta EXCEPT ![th.sid] = IF th.msid = th.sid THEN th.mval ELSE "nometa"] ELSE hmeta
             /\ SetT(t, [th EXCEPT !.opc = th.cont.created, !.waitid = IF e = "srv" THEN th.sid ELSE th.waitid]) /\ UNCHANGED <<str, wr>>
        [] OTHER -> FALSE
@@ -388,14 +389,14 @@ SvStep ==
                      IF p.kind = "InvokeMetadata"
                        THEN /\ mgr' = [mgr EXCEPT ![e].pkts = NoPkt, ![e].pdone = 1]
                             /\ SetT(t, [th EXCEPT !.msid = p.sid, !.mval = p.tag])
-                       ELSE /\ mgr' = [mgr EXCEPT ![e].pkts = NoPkt, ![e].pdone = 1]
+                       ELSE /\ mgr' = [mgr EXCEPT ![e].pkts = NoPkt]      \* m.pdone.Send() only after newStream (the reader goes on once the stream is registered)
                             /\ SetT(t, [th EXCEPT !.opc = "ncs.new", !.sid = p.sid, !.cont = [th.cont EXCEPT !.fail = "sv.fail2"]])
                \/ /\ ~m.pkts.full /\ sctx # "live" /\ mgr' = [mgr EXCEPT ![e].sem = 0]
                   /\ SetT(t, [th EXCEPT !.opc = "sv.fail", !.res = CtxErr(sctx)])
                \/ /\ ~m.pkts.full /\ m.term # U /\ mgr' = [mgr EXCEPT ![e].sem = 0]
                   /\ SetT(t, [th EXCEPT !.opc = "sv.fail", !.res = m.term])
        [] th.opc = "sv.fail2" ->     \* newStream failed after the semaphore was taken: deferred m.sem.Recv()
-            mgr' = [mgr EXCEPT ![e].sem = 0] /\ SetT(t, [th EXCEPT !.opc = "sv.fail"]) /\ UNCHANGED hmeta
+            mgr' = [mgr EXCEPT ![e].sem = 0, ![e].pdone = 1] /\ SetT(t, [th EXCEPT !.opc = "sv.fail"]) /\ UNCHANGED hmeta
        [] th.opc = "sv.fail" ->      \* ServeOne returns: deferred man.Close()
             SetT(t, [th EXCEPT !.opc = "mc.term"]) /\ UNCHANGED <<mgr, hmeta>>
        [] th.opc = "h.done" ->       \* a handler action finished
@@ -613,6 +614,59 @@ WireOrdered == \A e \in Eps : LET fl == Flat(e) IN \A i, j \in 1..Len(fl) : i < 
 \* C11: the handler of stream s sees exactly the metadata of the call that created s
 MetaScoped == \A s \in Sids : hmeta[s] # NONE =>
       \E r \in Sids : rpc[r].sid = s /\ hmeta[s] = (IF rpc[r].meta = NONE THEN "nometa" ELSE rpc[r].meta)
+
+(* ---------------- the listed properties as statements about quiescent states ---------------- *)
+\* A call is "inside drpc" when it has not returned and is parked neither in user code nor at an armed point.
+InDrpc(t) == AppObs(t) \in {"blk", "tw"}
+CancelledCall(t) == t \in CliThreads /\ thr[t].r # 0 /\ rpc[thr[t].r].ctx # "live" /\ thr[t].op # "ConnClose"
+
+\* The two situations in which the code, as it is, does not release the calls of a cancelled RPC although neither peer
+\* nor transport may be asked to cooperate (known findings of C04, named here so that everything else is checked):
+\*  hard cancel: manageStream's Stream.Cancel waits for the stream's state mutex, which a terminal call holds while
+\*               it queues for the write lock behind a write that is parked in the transport;
+\*  soft cancel: the cancel packet itself is parked in the stalled transport (it holds the write lock).
+HardCancelDeadlock == ~Soft /\ thr[Ms("cli")].in.pc = "cn.mulock"
+SoftCancelStall == Soft /\ thr[Ms("cli")].in.pc = "tw"
+\* C04: at quiescence no call of a cancelled RPC is inside drpc
+CancelReleases ==
+    Quiescent => \A t \in CliThreads : (CancelledCall(t) /\ InDrpc(t)) => (HardCancelDeadlock \/ SoftCancelStall)
+
+\* the same without the two named exceptions: TLC finds each of them (the model has what the code has)
+CancelReleasesStrict == Quiescent => \A t \in CliThreads : ~(CancelledCall(t) /\ InDrpc(t))
+
+\* C12: once Conn.Close has returned, at quiescence nothing of the client is left: no call inside drpc, both manager
+\* goroutines gone, the transport closed exactly once, Closed() signalled
+ConnCloseReturned == \E t \in CliThreads : thr[t].op = "ConnClose" /\ thr[t].opc = "ret"
+CloseReleases ==
+    (Quiescent /\ ConnCloseReturned) =>
+      /\ \A t \in CliThreads : ~InDrpc(t)
+      /\ thr[Rd("cli")].opc = "done" /\ thr[Ms("cli")].opc = "done"
+      /\ tp["cli"].closed = 1 /\ mgr["cli"].term # U
+
+\* C05: once an endpoint's transport has failed and its reader has noticed, at quiescence that manager is terminated,
+\* its transport closed once, and no call of that endpoint is inside drpc
+FaultContained ==
+    Quiescent => \A e \in Eps : (tp[e].failed /\ thr[Rd(e)].opc = "done") =>
+      /\ mgr[e].term # U /\ tp[e].closed = 1
+      /\ (e = "cli" => \A t \in CliThreads : ~InDrpc(t))
+
+\* C06: when every RPC has ended on both sides (client calls returned, client streams terminated, no handler running)
+\* and the transport has nothing in flight, both ends are ready for the next RPC or say they are closed.
+AllEnded ==
+    /\ \A t \in CliThreads : thr[t].opc \in {"idle", "ret"}
+    /\ \A r \in 1..nrpc : rpc[r].sid # 0 => Term("cli", rpc[r].sid)
+    /\ thr[SvT].opc \notin {"h.wait", "h.done", "sv.finr"}     \* no handler running, its final packet sent
+    /\ \A e \in Eps : net[e] = <<>> /\ rbuf[e] = <<>> /\ \A t \in AllThreads : thr[t].in.pc # "tw"
+\* the one situation in which the code, as it is, does not get there (known finding of C06/C04/C10/C02): the server's
+\* reader is parked delivering a message of the old stream that its handler never received
+UndrainedHandler == thr[Rd("srv")].in.pc \in {"hp.put1", "hp.put3"}
+ReadyOrClosed(e) ==
+    \/ mgr[e].term # U
+    \/ /\ thr[Rd(e)].opc = "rd.read" /\ ~InCall(thr[Rd(e)])
+       /\ IF e = "cli" THEN mgr[e].sem = 0 /\ (mgr[e].sbuf = 0 \/ FinS(e, mgr[e].sbuf))
+          ELSE thr[SvT].opc = "sv.take"
+NextAccepted == (Quiescent /\ AllEnded /\ ~UndrainedHandler) => \A e \in Eps : ReadyOrClosed(e)
+NextAcceptedStrict == (Quiescent /\ AllEnded) => \A e \in Eps : ReadyOrClosed(e)
 
 Terminal == Quiescent /\ ~ENABLED Controllable
 EmitStims == (Gen /\ (Terminal \/ nst >= MaxStims) /\ Quiescent) => PrintT("@@" \o ToJson([stims |-> stims]))
